@@ -564,7 +564,8 @@ def rule_text(ctx, res):
               'section lines decoded UTF-8 -> P8SCII', '',
               'reader conversion changed', raw.loc)
     # the gfx of the map is re-linked when gfx is read after map
-    res.check('my_map._gfx=new_game.gfx' in rs and 'gfx=my_gfx' in rs,
+    res.check('._gfx=new_game.gfx' in rs and (
+        'gfx=my_gfx' in rs or 'gfx=new_game.gfx' in rs),
               'R-C03-text', r.qual,
               'map and gfx stay linked whatever the section order', '',
               'map/gfx link is lost on read', r.loc)
